@@ -9,8 +9,8 @@ package main
 //     bit length of P, then scaled by 2^e and truncated toward zero.
 //
 // (2) intN(d.Seconds()) -- "SecondsOf" contract (DESIGN §2.6): for
-//     |d| < 2^23 s the truncation is exactly d/1e9; up to 2^33 s it is d/1e9
-//     or d/1e9+1 (only when d%1e9 != 0). Above that: unsupported.
+//     |d| < 2^23 s the truncation is exactly d/1e9; above that (any int64
+//     duration) it is d/1e9 or d/1e9+1 (the latter only when d%1e9 != 0).
 //     The contract is validated against the SSA body of time.Duration.Seconds
 //     by the "contract" harness (FloatingPoint theory).
 //
@@ -91,12 +91,14 @@ func (e *Exec) softFloatToInt(s *State, fs *FloatSym, w int, signed bool) Value 
 		// regime bounds
 		lim1 := BV(64, uint64(1<<23)*1000000000)
 		lim2 := uint64(1<<33) * 1000000000
-		inRange := Cmp(OpUlt, ad, BV(64, lim2))
-		s.symStrN++
-		wild := Var(fmt.Sprintf("secswild!%d!%d", d.ID, s.symStrN), 64)
-		e.h.noteAssumption("Duration.Seconds for |d| >= 2^33 s: result of a following float->int conversion is unconstrained (over-approximation)")
+		// Every int64 duration is covered: sec <= 9.3e9 < 2^53 is exact as a
+		// float, frac' = RN(nsec/1e9) < 1, and rounding is monotone, so
+		// RN(sec+frac') lies in [sec, sec+1]; it equals sec when nsec == 0, and
+		// below 2^23 s the spacing of floats (<= 2^-30) is finer than 1e-9, so
+		// the sum stays below sec+1.
+		_ = lim2
 		pick := func(exact *Term) Value {
-			return narrow(Ite(inRange, exact, wild), w)
+			return narrow(exact, w)
 		}
 		sec := BinBV(OpUDiv, ad, BV(64, 1000000000))
 		rem := BinBV(OpURem, ad, BV(64, 1000000000))
